@@ -1052,6 +1052,28 @@ PLAIN(__tsan_unaligned_write8)
 PLAIN(__tsan_unaligned_write16)
 PLAIN(__tsan_vptr_read)
 void __tsan_vptr_update(void**, void*) { sp(); }
+// memory intrinsics (aggregate copies, memcpy/memmove/memset calls) of fine-grained TUs: a copy is not atomic, so a
+// copy of 16 bytes or more is split in two with a schedule point in between (stale AND torn copies are reachable)
+void* __tsan_memcpy(void* d, const void* s, unsigned long n) {
+  sp();
+  if (n >= 16) {
+    unsigned long h = (n / 2) & ~7ul;
+    __builtin_memcpy(d, s, h);
+    sp();
+    __builtin_memcpy((char*)d + h, (const char*)s + h, n - h);
+  } else {
+    __builtin_memcpy(d, s, n);
+  }
+  return d;
+}
+void* __tsan_memmove(void* d, const void* s, unsigned long n) {
+  sp();
+  return __builtin_memmove(d, s, n);
+}
+void* __tsan_memset(void* d, int v, unsigned long n) {
+  sp();
+  return __builtin_memset(d, v, n);
+}
 void __tsan_read_range(void*, unsigned long) { sp(); }
 void __tsan_write_range(void*, unsigned long) { sp(); }
 void __tsan_read_write1(void*) { sp(); }
